@@ -18,6 +18,7 @@ func init() {
 			c.run("C16-R3", "SIBLING: marker cut", c16R3)
 			c.run("C16-R4", "GUARD-DOM: continuation only with junk tolerance; stripper slices only at proven indexes", c16R4)
 			c.run("C16-R5", "WHO-CALLS: junk tolerance forced by tunnel / config", c16R5)
+			c.run("C16-R7", "GUARD-DOM: the relay frames lines for a Windows side exactly when that side is Windows and the tunnel is not in use", c16R7)
 			c.run("C16-R6", "PAIR: the Windows reader's duplicate flag is consumed by the first kept letter", c16R6)
 		})
 }
@@ -595,4 +596,170 @@ func c16R6(c *Ctx) {
 	if n < 3 {
 		c.undecided("readLineOnWindows/duplicate-flag", "the flag's merges in the letter branch were not found")
 	}
+}
+
+// ---- C16-R7: which line framing the relay uses towards each side ----
+
+type assumption struct {
+	pred func(ssa.Value) bool
+	val  bool
+	// cmp (optional): for an equality assumption x == k, recognise the edge fact whichever way the source
+	// wrote the comparison (==, != and negations): reports whether the fact is about the same pair and whether
+	// it states equality.
+	cmp func(op token.Token, x, y ssa.Value) (applies, equal bool)
+}
+
+// contradicts: taking the edge from->to is impossible under the assumptions (the branch condition is one of the
+// assumed predicates with the other polarity).
+func contradicts(as []assumption) func(from, to *ssa.BasicBlock) bool {
+	return func(from, to *ssa.BasicBlock) bool {
+		for _, f := range edgeFactsTo(from, to) {
+			for _, a := range as {
+				if a.cmp != nil {
+					if op, x, y, ok := cmpFact(f); ok {
+						if applies, equal := a.cmp(op, x, y); applies && equal != a.val {
+							return true
+						}
+					}
+					continue
+				}
+				if a.pred(f.V) && f.Pol != a.val {
+					return true
+				}
+			}
+		}
+		return false
+	}
+}
+
+// blocksUnder: blocks reachable from the entry when the assumptions hold.
+func blocksUnder(f *ssa.Function, as []assumption) map[*ssa.BasicBlock]bool {
+	no := contradicts(as)
+	seen := map[*ssa.BasicBlock]bool{f.Blocks[0]: true}
+	work := []*ssa.BasicBlock{f.Blocks[0]}
+	for len(work) > 0 {
+		b := work[0]
+		work = work[1:]
+		for _, s := range b.Succs {
+			if !no(b, s) && !seen[s] {
+				seen[s] = true
+				work = append(work, s)
+			}
+		}
+	}
+	return seen
+}
+
+func c16R7(c *Ctx) {
+	win := func(v ssa.Value) bool { return isFieldLoad("winServer")(v) }
+	cliWin := func(v ssa.Value) bool { return isFieldLoad("clientIsWindows")(v) }
+	tun := func(v ssa.Value) bool {
+		call, _ := callOf(v)
+		return call != nil && isAtomicOnField(call, "tunnelConnected", "Load")
+	}
+	type want struct {
+		name    string
+		as      []assumption
+		windows bool // the Windows framing must be the one used
+	}
+	A := func(p func(ssa.Value) bool, v bool) assumption { return assumption{pred: p, val: v} }
+	// reader selection
+	for _, r := range []struct {
+		fn    string
+		wants []want
+	}{
+		{"TrzszRelay.recvStringFromClient", []want{
+			{"winServer,no-tunnel", []assumption{A(win, true), A(tun, false)}, true},
+			{"tunnel", []assumption{A(tun, true)}, false},
+			{"not-winServer", []assumption{A(win, false)}, false},
+		}},
+		{"TrzszRelay.recvStringFromServer", []want{
+			{"winClient,no-tunnel", []assumption{A(cliWin, true), A(tun, false)}, true},
+			{"winServer,no-tunnel", []assumption{A(cliWin, false), A(win, true), A(tun, false)}, true},
+			{"tunnel", []assumption{A(tun, true)}, false},
+			{"no-windows", []assumption{A(cliWin, false), A(win, false)}, false},
+		}},
+	} {
+		f := c.fn(r.fn)
+		w := callsIn(f, idIs("trzsz.recvStringForWindows"))
+		p := callsIn(f, idIs("trzsz.recvStringFromBuffer"))
+		if len(w) != 1 || len(p) != 1 {
+			c.lost("the two line readers in " + r.fn)
+		}
+		for _, wt := range r.wants {
+			reach := blocksUnder(f, wt.as)
+			good := reach[w[0].Block()] == wt.windows && reach[p[0].Block()] == !wt.windows
+			c.check(good, shortID(r.fn)+"/reader@"+wt.name, c.pos(f.Pos()), "under ("+wt.name+") exactly the "+map[bool]string{true: "Windows-console", false: "plain"}[wt.windows]+" line reader is reachable", "under ("+wt.name+") the relay reads with the wrong line reader")
+		}
+	}
+	// newline selection in the writers
+	for _, r := range []struct {
+		fn    string
+		wants []want
+	}{
+		{"TrzszRelay.sendStringToClient", []want{
+			{"winClient,no-tunnel", []assumption{A(cliWin, true), A(tun, false)}, true},
+			{"winServer,no-tunnel", []assumption{A(cliWin, false), A(win, true), A(tun, false)}, true},
+			{"tunnel", []assumption{A(tun, true)}, false},
+			{"no-windows", []assumption{A(cliWin, false), A(win, false)}, false},
+		}},
+		{"TrzszRelay.sendStringToServer", []want{
+			{"winServer,no-tunnel", []assumption{A(win, true), A(tun, false)}, true},
+			{"not-winServer", []assumption{A(win, false)}, false},
+		}},
+	} {
+		f := c.fn(r.fn)
+		var nl ssa.Value
+		for _, ci := range callsIn(f, idIs("fmt.Sprintf")) {
+			els, ok := sliceElems(ci.Common().Args[1])
+			if ok && len(els) == 3 {
+				nl = els[2].V
+			}
+		}
+		if nl == nil {
+			c.lost("the line formatter in " + r.fn)
+		}
+		ph, isPhi := strip(nl).(*ssa.Phi)
+		if !isPhi {
+			c.bad(shortID(r.fn)+"/newline", c.pos(f.Pos()), "the newline is no longer chosen between the plain and the Windows form")
+			continue
+		}
+		for _, wt := range r.wants {
+			reach := blocksUnder(f, wt.as)
+			no := contradicts(wt.as)
+			good := true
+			for i, e := range ph.Edges {
+				pred := ph.Block().Preds[i]
+				possible := reach[pred] && !no(pred, ph.Block())
+				s, isS := constString(strip(e))
+				if !isS {
+					good = false
+					continue
+				}
+				if possible && (s == "!\n") != wt.windows {
+					good = false
+				}
+			}
+			c.check(good, shortID(r.fn)+"/newline@"+wt.name, c.pos(f.Pos()), "under ("+wt.name+") only the "+map[bool]string{true: "'!\\n'", false: "'\\n'"}[wt.windows]+" terminator can be chosen", "under ("+wt.name+") the relay can terminate its line with the wrong terminator")
+		}
+	}
+	// the config's default newline towards a Windows server without tunnel
+	rc := c.fn("TrzszRelay.recvConfig")
+	um := callsIn(rc, idIs("encoding/json.Unmarshal"))
+	if len(um) != 1 {
+		c.lost("json.Unmarshal in the relay's recvConfig")
+	}
+	isWinStore := func(in ssa.Instruction) bool {
+		st, ok := in.(*ssa.Store)
+		if !ok {
+			return false
+		}
+		n, _ := fieldAddrName(st.Addr)
+		return strings.HasSuffix(n, ".Newline") && isConstStrV("!\n")(st.Val)
+	}
+	hit, path := reachFromE(rc.Blocks[0], 0, func(in ssa.Instruction) bool { return in == um[0].(ssa.Instruction) }, isWinStore, contradicts([]assumption{A(win, true), A(tun, false)}))
+	c.check(hit == nil, "recvConfig/windows-default-newline", c.pos(rc.Pos()), "towards a Windows server without tunnel the config's default newline is '!\\n'", "the relay can decode the config of a Windows server with the plain default newline", c.pathStr(path)...)
+	hit, _ = reachFromE(rc.Blocks[0], 0, isWinStore, nil, contradicts([]assumption{A(win, false)}))
+	hit2, _ := reachFromE(rc.Blocks[0], 0, isWinStore, nil, contradicts([]assumption{A(tun, true)}))
+	c.check(hit == nil && hit2 == nil, "recvConfig/plain-default-newline", c.pos(rc.Pos()), "the Windows default newline is not used for a non-Windows server or through the tunnel", "the Windows default newline can be used for a non-Windows server / through the tunnel")
 }
